@@ -44,6 +44,7 @@ FIXED = [
     ("C10-F5", ["C10"], "13f7d6b", "add_bases/remove_bases did not re-derive references of child spaces bound relatively through their parents' inheritance: after `C.remove_bases(A)` `C.X.t` was a null object"),
     ("HALFBUILT", ["C05", "C11"], "1145371", "a failed ItemSpace construction stayed registered in its base's dynamic-space list; the next namespace change raised AttributeError 'argvalues_if'"),
     ("C04-NEWREF", ["C04", "C11"], "d3e60d4", "a model whose sub space was created before its base and overrides a reference was written without error but read_model raised 'Cannot create reference'; new_ref looked at the first sub space only"),
+    ("C14-X", ["C14"], "a6ca415", "a zip save whose temporary directory is on another file system was copied onto the destination: a fault during the copy left a truncated archive at the path"),
     ("M", ["C15"], "b10cccc", "export: names in a comprehension following a nested class/def scope were not rewritten to self.<name> (NameError in the package)"),
     ("N", ["C17"], "c0724cd", "nodes rolled back by a failure a formula handled leaked into the next traceback"),
     ("O", ["C04"], "14fa167", "`_is_cached = False` of a lambda-defined cells was written but not read back"),
@@ -72,6 +73,9 @@ KNOWN = [
     ("C04", "C04 whitespace-only lines of a def formula captured from CRLF text are emptied when read back",
      "a def formula given as CRLF text with a whitespace-only line inside a triple-quoted string: after write/read the line is empty and the value changes",
      "findings/c04_witnesses.py::crlf_blank_line"),
+    ("C14", "C14-S consecutive failed saves push the last good copy down",
+     "two (or more) consecutive failed directory saves: each partial output is rotated into _BAK1, the last good copy moves to _BAK2, _BAK3 and is deleted after the fourth failure",
+     "findings/c14_witnesses.py::S"),
     ("C18", "an accepted creation bound no reference to the value (scalar cells) [history has: creation under a scalar cells name]",
      "new_pandas/new_module under the name of a scalar cells is accepted, assigns the cells' value, creates no reference, and the spec stays in the IOManager (location never released)",
      "findings/c18_witnesses.py::SCALAR"),
